@@ -149,16 +149,17 @@ def r1(ctx):
     # --- FutureConnector delegating methods: identical claim idiom (in the method itself or in a guard helper it awaits first)
     cls = p.cls(FUT)
 
-    def claim_idiom(m):
-        """(ok, msg): on the `_connector is None` branch: not deploying -> flag set before the first await -> deploy(); else wait."""
+    def claim_idiom(m, R="self"):
+        """(ok, msg): on the `_connector is None` branch: not deploying -> flag set before the first await -> deploy(); else wait.
+        R is the name that stands for the connector object (`self`, or the parameter of a module-level helper)."""
         g = m.cfg
-        flag_tests = [n for n in g.nodes.values() if n.kind == "test" and "self.deploying" in n.text()]
+        flag_tests = [n for n in g.nodes.values() if n.kind == "test" and f"{R}.deploying" in n.text()]
         sets = [n for n in g.nodes.values() if n.kind == "stmt" and isinstance(n.ast, ast.Assign)
-                and unparse(n.ast.targets[0]) == "self.deploying" and unparse(n.ast.value) == "True"]
+                and unparse(n.ast.targets[0]) == f"{R}.deploying" and unparse(n.ast.value) == "True"]
         deploys = [n for n in g.nodes.values() if any(
-            isinstance(c.func, ast.Attribute) and unparse(c.func) == "self.deploy" for c in n.calls())]
+            isinstance(c.func, ast.Attribute) and unparse(c.func) == f"{R}.deploy" for c in n.calls())]
         waits = [n for n in g.nodes.values() if any(
-            isinstance(c.func, ast.Attribute) and unparse(c.func) == "self._safe_deploy_event_wait" for c in n.calls())]
+            isinstance(c.func, ast.Attribute) and unparse(c.func) == f"{R}._safe_deploy_event_wait" for c in n.calls())]
         if not (flag_tests and sets and deploys and waits):
             return False, "claim idiom incomplete"
         ft, st, dp = flag_tests[0], sets[0], deploys[0]
@@ -176,23 +177,28 @@ def r1(ctx):
             return False, "no waiting branch for concurrent callers"
         return True, ""
 
-    def none_tests(m):
-        return [n for n in m.cfg.nodes.values() if n.kind == "test" and _none_edge(n.ast)]
+    def none_tests(m, R="self"):
+        return [n for n in m.cfg.nodes.values() if n.kind == "test" and _none_edge(n.ast, f"{R}._connector")]
 
     def uses_inner(m):
         return any(isinstance(n, ast.Attribute) and unparse(n).startswith("self._connector.") for n in m.body_nodes())
 
-    # guard helpers: methods that carry the deployed-test and the claim idiom but do not delegate themselves
+    # guard helpers: methods (receiver `self`) or module-level coroutines of the same module taking the connector as their
+    # single parameter, that carry the deployed-test and the claim idiom but do not delegate themselves
     helpers = {}
-    for m in cls.methods.values():
-        if m.is_async and m.name not in ("deploy", "undeploy", "_safe_deploy_event_wait") and not uses_inner(m) and none_tests(m):
+    cands = [(m, "self") for m in cls.methods.values()]
+    for fn in p.all_funcs():
+        if fn.cls is None and fn.file == cls.file and fn.is_async and len([a for a in fn.params]) == 1 and "<locals>" not in fn.qualname:
+            cands.append((fn, fn.params[0]))
+    for m, R in cands:
+        if m.is_async and m.name not in ("deploy", "undeploy", "_safe_deploy_event_wait") and not uses_inner(m) and none_tests(m, R):
             hg = m.cfg
-            nt = none_tests(m)
-            ok, msg = claim_idiom(m)
+            nt = none_tests(m, R)
+            ok, msg = claim_idiom(m, R)
             # the idiom must lie on the `is None` branch and the helper must end with the connector deployed or an exception:
             # every normal exit passes the test's false edge or a deploy()/wait call
-            work = [n.id for n in hg.nodes.values() if any(isinstance(c.func, ast.Attribute) and unparse(c.func) in ("self.deploy", "self._safe_deploy_event_wait") for c in n.calls())]
-            falses = [b for t in nt for b, k in hg.succ[t.id] if k in ("t", "f") and k != _none_edge(t.ast)]
+            work = [n.id for n in hg.nodes.values() if any(isinstance(c.func, ast.Attribute) and unparse(c.func) in (f"{R}.deploy", f"{R}._safe_deploy_event_wait") for c in n.calls())]
+            falses = [b for t in nt for b, k in hg.succ[t.id] if k in ("t", "f") and k != _none_edge(t.ast, f"{R}._connector")]
             if ok and hg.path(hg.entry, [hg.exit], avoid=work + falses) is not None:
                 ok, msg = False, "a path leaves the helper without deploying or waiting although the connector is missing"
             helpers[m.name] = (ok, msg)
@@ -209,15 +215,20 @@ def r1(ctx):
             for x in n.walk())]
         # (a) every use of self._connector.<x> is dominated by the None-test (own, or an awaited guard helper)
         tests = none_tests(m)
-        helper = [n for n in g.nodes.values() if n.has_await() and any(
-            isinstance(c.func, ast.Attribute) and isinstance(c.func.value, ast.Name) and c.func.value.id == "self" and c.func.attr in helpers
-            for c in n.calls())]
+        def _helper_name(c):
+            if isinstance(c.func, ast.Attribute) and isinstance(c.func.value, ast.Name) and c.func.value.id == "self" and c.func.attr in helpers:
+                return c.func.attr
+            if isinstance(c.func, ast.Name) and c.func.id in helpers and len(c.args) == 1 and unparse(c.args[0]) == "self":
+                return c.func.id
+            return None
+
+        helper = [n for n in g.nodes.values() if n.has_await() and any(_helper_name(c) for c in n.calls())]
         guard_ids = [n.id for n in tests + helper]
         ok_dom = bool(guard_ids) and all(g.dominates(guard_ids, u.id) for u in use_nodes)
         ctx.ob("R1", f"{m.name}: uses of the inner connector are preceded by the deployed-test", ok_dom,
                func=m, node=m.node, instance=f"{m.name}:none-test")
         if helper and not tests:
-            hn = [c.func.attr for n in helper for c in n.calls() if isinstance(c.func, ast.Attribute) and c.func.attr in helpers][0]
+            hn = [_helper_name(c) for n in helper for c in n.calls() if _helper_name(c)][0]
             ok, msg = helpers[hn]
             ctx.ob("R1", f"{m.name}: test-and-set of `deploying` is atomic and exclusive (through {hn})", ok, func=m, node=m.node,
                    instance=f"{m.name}:claim", message=f"{m.name}: {msg}")
@@ -476,8 +487,10 @@ def r5(ctx):
     for r in eager_reg:
         early = None
         for s_ in sets:
+            # a set() that is reached before the deploy on a route that goes on to deploy (lazy deployments register and
+            # release at once by design: their FutureConnector deploys on first use)
             pth = gd.path(r.id, [s_.id], avoid=dep, kinds=NORMAL)
-            if pth:
+            if pth and any(d_ in gd.reach([s_.id], kinds=NORMAL) for d_ in dep):
                 early = pth
         ctx.ob("R5", "the deployment event is set only after connector.deploy() returned", early is None, func=d, node=r.ast,
                instance="_deploy:set-after-deploy", message="waiters are released before the connector finished deploying", witness=gd.describe(early) if early else [])
